@@ -369,6 +369,22 @@ def step (O : Ops F) (op : Op F) (w : Witness F) : List (Pop F) → List (Pop F)
     | .error .exec => (cur :: rest, .err)
     | .error .panic => (cur :: rest, .panic)
 
+/-- What the `State` a selection component runs on may hold besides the population stack: other best /
+memory states whose content need NOT be in the current population (`BestIndividual` = the best individual
+found so far, `ElitistArchive`, the personal and global bests of PSO — `BestParticles` / `BestParticle`). -/
+structure SelState (F : Type) where
+  stack : List (Pop F)
+  best : Option (Ind F)
+  archive : Pop F
+  pbest : Pop F
+  gbest : Option (Ind F)
+
+/-- `Component::execute` of every selection operator (`selection(self, problem, state)`): `select` on the
+current population of `state.populations_mut()` with `state.random_mut()`, clone, push.  No other state is
+read or written. -/
+def execute (O : Ops F) (op : Op F) (w : Witness F) (st : SelState F) : SelState F × Outcome :=
+  ({ st with stack := (step O op w st.stack).1 }, (step O op w st.stack).2)
+
 /-! ### Legal witnesses: what the sampling primitives guarantee -/
 
 def inRange (n : Nat) (is : List Nat) : Prop := ∀ i ∈ is, i < n
@@ -535,8 +551,9 @@ def legalB (op : Op Float) (pop : FPop) : Witness Float → Bool
 def codeBestIdx (cur : FPop) : Nat :=
   cur.findIdx fun x => cur.all fun y => !((y.obj.getD 0) < (x.obj.getD 0))
 
-/-- indices of the selected individuals in the source population, read off the tags -/
-def recoverIdx (pop sel : FPop) : List Nat := sel.map fun x => pop.findIdx (fun y => y.tag == x.tag)
+/-- indices of the selected individuals in the source population: the first position holding an exact copy
+(tag AND objective — members may share a tag, i.e. a solution, and differ in the objective) -/
+def recoverIdx (pop sel : FPop) : List Nat := sel.map fun x => pop.findIdx (fun y => indEq y x)
 
 /-- positions in `src` of the individuals `xs` (exact copies), every position used at most once:
 the first not yet used position holding an equal individual; `src.length` if there is none. -/
@@ -655,13 +672,19 @@ def violation (op : Op Float) (cur : FPop) (rest : List FPop) (stack' : List FPo
         | .sus n _ =>
           -- copies in proportion to the weights up to one copy (`sus_copies_proportional`): a worse member
           -- never gets more than two copies more than a better one (two: one boundary point on either side)
-          let counts := cur.map fun x => (sel.filter (indEq x)).length
+          -- members are (solution, objective) pairs; `m` identical members are one group whose copies cannot be told
+          -- apart: with group totals C, C' and sizes m, m' the member-wise bound c' ≤ c + 2 gives C'·m ≤ m'·(C + 2m)
+          let counts := cur.map fun x => ((sel.filter (indEq x)).length, (cur.filter (indEq x)).length)
           if sel.length != n then some "count"
-          else if (objs.zip counts).all (fun (o, c) => (objs.zip counts).all fun (o', c') => !(o ≤ o') || c' ≤ c + 2)
+          else if (objs.zip counts).all (fun (o, c, m) => (objs.zip counts).all fun (o', c', m') =>
+              !(o ≤ o') || c' * m ≤ m' * (c + 2 * m))
           then none else some "pressure"
         | .randomWithoutRepetition n =>
           if sel.length != n then some "count"
-          else if !nodupB (recoverIdx cur sel) then some "repeat" else none
+          else
+            -- distinct MEMBERS (positions): identical members may each be returned once
+            let ix := recoverUnused cur sel []
+            if ix.all (· < len) && nodupB ix then none else some "repeat"
         | .tournament n size =>
           if sel.length != n then some "count"
           else if sel.all (legalWinner cur size) then none else some "winner"
@@ -688,7 +711,11 @@ def violation (op : Op Float) (cur : FPop) (rest : List FPop) (stack' : List FPo
               let ix := recoverUnused remaining (blk.drop 2) []
               ix.all (· < remaining.length) && nodupB ix) then none else some "repeat"
         | .iwo a b =>
-          let counts := cur.map fun x => (sel.filter (indEq x)).length
+          -- copies per member; `m` identical members (same solution and objective) share their copies evenly
+          let mults := cur.map fun x => (cur.filter (indEq x)).length
+          let groups := cur.map fun x => (sel.filter (indEq x)).length
+          if !(groups.zip mults).all (fun (g, m) => g % m == 0) then some "count" else
+          let counts := (groups.zip mults).map fun (g, m) => g / m
           let mx := (maxF objs).getD 0
           -- (the order of the copies is not part of the property; it is compared with the model only)
           if !counts.all (fun c => a ≤ c && c ≤ b) then some "count"
@@ -752,13 +779,18 @@ def inQuantifier (op : Op Float) (stack : List FPop) : Bool :=
     | _ => true
 
 def handleSel (args : List Sexp) (implOut : Sexp) : Option CaseResult := do
-  -- an optional 4th argument `(via select)`: `Selection::select` was called directly (same model: `step`)
-  let (opS, stackS) ← match args with
-    | [o, _, s] => some (o, s)
-    | [o, _, s, _] => some (o, s)
+  -- optional further arguments: `(via select)` — `Selection::select` was called directly (same model: `step`);
+  -- `(extra (best i) (archive i*) (pbest i*) (gbest i))` — other best / memory states held by the State
+  let (opS, stackS, more) ← match args with
+    | o :: _ :: s :: more => some (o, s, more)
     | _ => none
   let op ← parseOp opS
   let stack ← (← tagged? "stack" stackS).mapM parsePop
+  let extra : List Sexp := (more.filterMap fun m => tagged? "extra" m).flatten
+  let part (t : String) : Option FPop := (extra.filterMap fun e => tagged? t e).head?.bind fun l => l.mapM parseInd
+  let st0 : SelState Float :=
+    { stack, best := (part "best").bind (·.head?), archive := (part "archive").getD [],
+      pbest := (part "pbest").getD [], gbest := (part "gbest").bind (·.head?) }
   let (resS, stS, witS) ← match implOut with
     | .list [r, s, w] => some (r, s, w)
     | _ => none
@@ -778,8 +810,9 @@ def handleSel (args : List Sexp) (implOut : Sexp) : Option CaseResult := do
     | _, _ => none
   let len := cur.length
   let w : Witness Float := match op with
-    | .fullyRandom _ | .randomWithoutRepetition _ | .rouletteWheel _ _ | .linearRank _ | .exponentialRank _ _ =>
+    | .fullyRandom _ | .rouletteWheel _ _ | .linearRank _ | .exponentialRank _ _ =>
       .idx ((okSel.map (recoverIdx cur)).getD [])
+    | .randomWithoutRepetition _ => .idx ((okSel.map fun sel => recoverUnused cur sel []).getD [])
     | .all | .none | .cloneSingle _ | .iwo _ _ => .none
     | .tournament n size =>
       match okSel with
@@ -810,10 +843,10 @@ def handleSel (args : List Sexp) (implOut : Sexp) : Option CaseResult := do
     | .sus _ _ => wRep
   let (mstack, mres) : List FPop × Res :=
     if !ctorOk op then (stack, .ctor)
-    else match step floatOps op w stack with
-      | (s, .ok) => (s, .ok)
-      | (s, .err) => (s, .err)
-      | (s, .panic) => (s, .panic)
+    else match execute floatOps op w st0 with
+      | (s, .ok) => (s.stack, .ok)
+      | (s, .err) => (s.stack, .err)
+      | (s, .panic) => (s.stack, .panic)
   let model := Sexp.list [.list [.atom "res", mres.toSexp], .list (.atom "stack" :: mstack.map popToSexp)]
   let legal := res != .ok || legalB op cur w
   let exact := legal && mres == res && stackEq mstack stack'
